@@ -5,7 +5,8 @@ package registrysim
 // gate / unsigned policy gate, cache, extraction, atomic placement, manifest) runs against a
 // real temporary directory tree; every path-level file-system call goes through the injected
 // simfs shim (crash points, faults, placement log), the network is an in-process
-// RoundTripper, the artifact verifier is scripted. Sequential: one install at a time.
+// RoundTripper, the artifact verifier is scripted. Sequential enumeration here; two installs
+// interleaved at every file-system operation and lock wait by a seeded scheduler in conc_test.go.
 
 import (
 	"archive/tar"
@@ -247,6 +248,9 @@ type World struct {
 	viol          []Violation
 	statePath     string
 	faultsInjected map[string]int
+	nets          map[int]*simNet // what each attempt's network serves
+	started       map[int]bool    // attempts begun so far
+	conc          *conc           // non-nil while two installs run interleaved
 }
 
 type placement struct {
@@ -277,8 +281,14 @@ func (w *World) before(op string, paths ...string) error {
 	if w.crashed {
 		return errCrashed
 	}
+	if w.conc != nil {
+		w.conc.park("")
+		if w.crashed {
+			return errCrashed
+		}
+	}
 	w.ops++
-	w.opLog = append(w.opLog, fmt.Sprintf("%d %s %s", w.ops, op, strings.Join(paths, " -> ")))
+	w.opLog = append(w.opLog, fmt.Sprintf("%d %s%s %s", w.ops, w.actorTag(), op, strings.Join(paths, " -> ")))
 	if w.crashAt == w.ops && !w.crashAfter {
 		w.crashed = true
 		return errCrashed
@@ -446,8 +456,11 @@ func collectKeys(v any, out map[string]bool) {
 // so far whose served bytes matched the index digest and which passed verification (accepted
 // by the verifier, or unsigned with the operator's permission).
 func (w *World) allowedBinary(name string, content []byte) bool {
-	for i := 0; i <= w.cur && i < len(w.sc.Attempts); i++ {
+	for i := 0; i < len(w.sc.Attempts); i++ {
 		a := w.sc.Attempts[i]
+		if !w.started[i] {
+			continue
+		}
 		if fmt.Sprintf("conduit-connector-%s_%s", a.Conn, a.Version) != name {
 			continue
 		}
@@ -623,12 +636,27 @@ func (w *World) publish(i int) {
 		n.fail[base+"/sig.json"] = "err"
 	}
 	w.net = n
-	http.DefaultTransport = n
-	http.DefaultClient = &http.Client{Transport: n}
+	w.nets[i] = n
+	http.DefaultTransport = dispatchRT{w}
+	http.DefaultClient = &http.Client{Transport: dispatchRT{w}}
+}
+
+// dispatchRT serves a request from the network of the attempt that is executing.
+type dispatchRT struct{ w *World }
+
+func (d dispatchRT) RoundTrip(req *http.Request) (*http.Response, error) {
+	return d.w.nets[d.w.cur].RoundTrip(req)
+}
+
+func (w *World) actorTag() string {
+	if w.conc == nil {
+		return ""
+	}
+	return fmt.Sprintf("[a%d] ", w.cur)
 }
 
 func newWorld(sc *Scenario, root string) *World {
-	w := &World{sc: sc, root: root, target: filepath.Join(root, "target"), accepted: map[int][32]byte{}, archive: map[int][]byte{}, faultsInjected: map[string]int{}}
+	w := &World{sc: sc, root: root, target: filepath.Join(root, "target"), accepted: map[int][32]byte{}, archive: map[int][]byte{}, faultsInjected: map[string]int{}, nets: map[int]*simNet{}, started: map[int]bool{}}
 	kr := rand.New(rand.NewPCG(uint64(sc.Seed), 77))
 	w.pub, w.priv, _ = ed25519.GenerateKey(seedReader{kr})
 	_, w.badPriv, _ = ed25519.GenerateKey(seedReader{kr})
@@ -650,13 +678,23 @@ func newWorld(sc *Scenario, root string) *World {
 func (w *World) install(i int) (err error) {
 	w.cur, w.ops, w.crashed, w.faultFired, w.opLog = i, 0, false, false, nil
 	w.publish(i)
-	a := w.sc.Attempts[i]
+	w.started[i] = true
 	simfs.Before, simfs.After = w.before, w.after
 	defer func() { simfs.Before, simfs.After = nil, nil }()
+	return w.runInstall(i)
+}
+
+// runInstall: one call of registry.Install for attempt i (hooks and network are in place).
+func (w *World) runInstall(i int) (err error) {
+	a := w.sc.Attempts[i]
+	hwmAtStart := w.hwm
 	defer func() {
 		if r := recover(); r != nil {
 			w.violate("install-panicked", fmt.Sprintf("attempt %d (%s): install panicked: %v", i, a.Shape, r))
 			err = fmt.Errorf("panic: %v", r)
+		}
+		if err == nil && a.IndexVersion < hwmAtStart {
+			w.violate("older-index-accepted", fmt.Sprintf("attempt %d: install succeeded with index version %d although version %d had been recorded as accepted before it started", i, a.IndexVersion, hwmAtStart))
 		}
 	}()
 	tv := &registry.TrustedVerifier{
@@ -669,7 +707,7 @@ func (w *World) install(i int) (err error) {
 		Name: a.Conn, Version: a.Version, ConnectorsPath: w.target,
 		IndexURL: "http://sim/index.json", IndexVerifier: tv, ArtifactVerifier: &simVerifier{w: w},
 		RunningConduitVersion: "0.99.0", RunningProtocolVersion: "0.99.0", InstalledBy: "sim",
-		LockTimeout: 2 * time.Second, HTTPClient: &http.Client{Transport: w.net},
+		LockTimeout: 2 * time.Second, HTTPClient: &http.Client{Transport: dispatchRT{w}},
 		AllowUnsigned: a.Unsigned, TTY: a.TTY, CIEnv: a.CI, IsMCP: a.MCP, EnvVarSet: a.EnvVar, TypedConfirmation: a.Typed, OperatorAllowUnsigned: a.OperatorAllow,
 	}
 	ctx, cancel := context.WithTimeout(context.Background(), 20*time.Second)
@@ -711,6 +749,9 @@ type Stats struct {
 	Shapes                                                      map[string]int
 	Faults                                                      map[string]int
 	Ops                                                         int
+	ConcRuns, ConcCrashes, ConcFaults, LockWaits, LockTimeouts  int
+	Schedules                                                   int // distinct schedules (sequences of scheduler picks) of interleaved installs
+	schedules                                                   map[uint64]bool
 }
 
 type Found struct {
@@ -721,6 +762,7 @@ type Found struct {
 	Viol     Violation `json:"violation"`
 	Scenario *Scenario `json:"scenario"`
 	OpLog    []string  `json:"op_log,omitempty"`
+	Schedule string    `json:"schedule,omitempty"` // mode conc: which install ran at each step
 }
 
 var sandboxSeq int
@@ -741,6 +783,12 @@ func (w *World) clone(root string) *World {
 		n.accepted[k] = v
 	}
 	n.outsideBase = w.outsideBase
+	for k, v := range w.started {
+		n.started[k] = v
+	}
+	for k, v := range w.nets {
+		n.nets[k] = v
+	}
 	return n
 }
 
@@ -769,7 +817,17 @@ func RunScenario(sc *Scenario, base string, maxPoints int, only *Found, st *Stat
 		// snapshot of the tree before attempt i
 		pre := mkSandbox(base)
 		_ = copyTree(root, pre)
-		preW := *w
+		preW := *w // (maps are copied below: the clean pass must not leak what it learns into the enumeration)
+		preW.accepted, preW.started, preW.nets = map[int][32]byte{}, map[int]bool{}, map[int]*simNet{}
+		for k, v := range w.accepted {
+			preW.accepted[k] = v
+		}
+		for k, v := range w.started {
+			preW.started[k] = v
+		}
+		for k, v := range w.nets {
+			preW.nets[k] = v
+		}
 		// ---- clean pass
 		err := w.install(i)
 		st.Installs++
@@ -876,7 +934,8 @@ func TestReg(t *testing.T) {
 	}
 	_ = os.MkdirAll(base, 0o755)
 	out := os.Getenv("VERIF_OUT")
-	st := Stats{Shapes: map[string]int{}, Faults: map[string]int{}}
+	st := Stats{Shapes: map[string]int{}, Faults: map[string]int{}, schedules: map[uint64]bool{}}
+	nsched := int(envInt("VERIF_SCHEDULES", 6))
 	switch mode {
 	case "replay":
 		var f Found
@@ -888,7 +947,12 @@ func TestReg(t *testing.T) {
 			t.Fatal(err)
 		}
 		sc := GenScenario(f.Seed)
-		found := RunScenario(sc, base, 0, &f, &st)
+		var found []Found
+		if f.Mode == "conc" {
+			found = RunConcurrent(sc, base, f.Op+1, &f, &st)
+		} else {
+			found = RunScenario(sc, base, 0, &f, &st)
+		}
 		writeJSON(out, Report{Found: found, Stats: st})
 	default:
 		first := envInt("VERIF_SEED_BASE", 1)
@@ -900,6 +964,7 @@ func TestReg(t *testing.T) {
 		for s := first; s < first+n && time.Since(start) < budget; s++ {
 			sc := GenScenario(s)
 			found := RunScenario(sc, base, maxPoints, nil, &st)
+			found = append(found, RunConcurrent(sc, base, nsched, nil, &st)...)
 			rep.SeedLast = s
 			rep.Found = append(rep.Found, found...)
 			if len(rep.Samples) < 2 {
@@ -909,6 +974,7 @@ func TestReg(t *testing.T) {
 				break
 			}
 		}
+		st.Schedules = len(st.schedules)
 		rep.Stats = st
 		rep.WallS = time.Since(start).Seconds()
 		writeJSON(out, rep)
